@@ -254,6 +254,13 @@ impl VM {
                 OpCode::Const => {
                     let idx = self.read_u16();
                     let value = constants[idx as usize];
+                    // strings can be modified in place (s[0] = "x"), so every evaluation of a string literal
+                    // gets its own copy instead of the shared object from the constant pool
+                    let value = if value.tag() == Type::String {
+                        Object::string(value.as_str(), gc)
+                    } else {
+                        value
+                    };
                     self.push(value);
                 }
                 OpCode::SetGlobal => {
